@@ -86,6 +86,8 @@ type e3Item struct {
 	msg     *e3Msg
 	byz     bool
 	redeliv int
+	// pass: injected by the late-header attack for its victim; exempt from that attack's hold
+	pass bool
 }
 
 const (
@@ -133,6 +135,13 @@ type e3Config struct {
 	// back the victim's precommits and later messages, and once the victim finalized alone it
 	// supports whatever else is proposed in later rounds towards the other nodes.
 	Attack bool `json:"directed_split_attack,omitempty"`
+	// AttackKind 1 (with Attack): the late-header attack. A Byzantine proposer shows block X to the
+	// victim only and block Y to everybody else and helps Y to a decision; the victim is shown the
+	// precommits for Y and one Byzantine prevote for X, while every header and every other prevote
+	// of that height addressed to it is held back; when the others have finalized Y the victim gets
+	// the header of X, and only later everything that was held.
+	// AttackKind 2: see nextRoundStep.
+	AttackKind int `json:"attack_kind,omitempty"`
 
 	// C09(c)
 	virtDelayMax   int
@@ -207,6 +216,17 @@ type e3Run struct {
 	// atkIsolate: also hold the victim's prevotes and show the Byzantine prevotes for the block to
 	// the victim only (nil to the others), so that only the victim sees a polka
 	atkIsolate bool
+	// late-header attack: 0 waiting for a Byzantine proposer, 1 Y under way, 2 X shown to the victim
+	atkStage      int
+	atkStageSince int
+	atkX          tmconsensus.ProposedHeader
+	atkNudge      bool
+	atkHeights    map[uint64]bool // attack kind 2: heights already attacked
+	atkRound      uint32          // attack kind 2: the round of the block shown to the victim
+	atkXHash      string
+	// atkFromStart: attack kind 2 also at heights 1 and 2 (drawn per run); otherwise it starts
+	// at height 3, the first height whose validator set differs from the genesis set
+	atkFromStart bool
 
 	// panicPrefix != "" makes every caught panic of a node goroutine a violation keyed panicPrefix+PanicKey.
 	panicPrefix string
@@ -236,6 +256,7 @@ func newE3Run(r *verifkit.Run, id string, cfg e3Config, rng *mrand.Rand) *e3Run 
 		delayRng:  mrand.New(mrand.NewPCG(rng.Uint64(), rng.Uint64())),
 	}
 	run.w = e3NewWorld(rng, cfg.N, cfg.Profile, cfg.WantByz, cfg.Rotate)
+	run.atkFromStart = cfg.Attack && cfg.AttackKind == 2 && id[len(id)-1]%3 == 0
 	e3ResolveRestarts(&run.cfg, run.w.correctList())
 	run.rootCtx, run.rootCancel = context.WithCancel(context.Background())
 	run.nodes = make([]*e3Node, cfg.N)
@@ -552,6 +573,27 @@ func (run *e3Run) deliverable(it *e3Item) bool {
 	}
 	if run.lagHeld && it.dst == run.cfg.LagNode {
 		return false
+	}
+	if run.cfg.Attack && run.cfg.AttackKind == 2 {
+		if run.atkH > 0 && run.atkStage == 1 {
+			h, r := it.msg.hr()
+			if it.dst == run.atkVictim && !it.pass && h == run.atkH && it.msg.kind == e3KindPrecommit {
+				return false
+			}
+			if it.src == run.atkVictim && it.dst != run.atkVictim && (h > run.atkH || (h == run.atkH && r >= run.atkRound)) {
+				// what the victim says about this height reaches the others only later
+				return false
+			}
+		}
+		return true
+	}
+	if run.cfg.Attack && run.cfg.AttackKind == 1 {
+		if run.atkH > 0 && run.atkStage >= 1 && it.dst == run.atkVictim && !it.pass {
+			if h, _ := it.msg.hr(); h == run.atkH && (it.msg.kind == e3KindPH || it.msg.kind == e3KindPrevote) {
+				return false
+			}
+		}
+		return true
 	}
 	if run.cfg.Attack && run.atkH > 0 && it.src == run.atkVictim && it.dst != run.atkVictim {
 		// the victim's precommits for the height under attack and everything it says about
@@ -1027,7 +1069,14 @@ func (run *e3Run) loop() {
 					idle = 0
 				default:
 					idle++
-					if idle == 2 && run.cfg.Attack && run.atkH > 0 {
+					if idle == 2 && run.cfg.Attack && run.cfg.AttackKind == 2 && run.atkH > 0 && run.atkStage == 1 {
+						run.atkStage = 2
+						idle = 0
+					} else if idle == 2 && run.cfg.Attack && run.cfg.AttackKind == 1 && run.atkH > 0 && run.atkStage == 1 {
+						// everything that could move has moved: time to show X to the victim
+						run.atkNudge = true
+						idle = 0
+					} else if idle == 2 && run.cfg.Attack && run.atkH > 0 {
 						// nothing moved for two long windows with the victim's messages held:
 						// the attack on this height ends and the held messages flow
 						run.logf("attack on height %d ends at quiescence", run.atkH)
@@ -1248,6 +1297,22 @@ func (run *e3Run) byzInject() {
 			run.inject(e3Msg{kind: e3KindPH, ph: phB}, a)
 		}
 		run.count("byzantine.proposal-equivocation", 1)
+	case x < 33:
+		// a block of its own with all the Byzantine votes behind it, for some nodes only:
+		// worth nothing by itself, whatever round it claims
+		base, ok := run.baseHeader(h)
+		if !ok {
+			run.count("byzantine.skipped.no-base-header", 1)
+			return
+		}
+		ph := run.w.byzProposal(base, h, r, byz[0], 8)
+		run.observe(&e3Msg{kind: e3KindPH, ph: ph})
+		t := string(ph.Header.Hash)
+		run.inject(e3Msg{kind: e3KindPH, ph: ph}, a)
+		signers = byz
+		run.inject(mkVote(false, map[string][]int{t: signers}), a)
+		run.inject(mkVote(true, map[string][]int{t: signers}), a)
+		run.count("byzantine.own-block-own-votes", 1)
 	case x < 60:
 		// vote equivocation: different targets to different nodes, or two targets in one message
 		precommit := rng.IntN(2) == 0
@@ -1294,8 +1359,222 @@ func (run *e3Run) byzInject() {
 	}
 }
 
+// injectPass is inject for items that the late-header attack's hold lets through.
+func (run *e3Run) injectPass(m e3Msg, dsts []int) {
+	n0 := len(run.pool)
+	run.inject(m, dsts)
+	for i := n0; i < len(run.pool); i++ {
+		run.pool[i].pass = true
+	}
+}
+
+// lateHeaderStep drives the late-header attack (see e3Config.AttackKind).
+func (run *e3Run) lateHeaderStep(step int) {
+	byz := run.w.byzList()
+	correct := run.liveCorrect()
+	if len(byz) == 0 || len(correct) < 2 {
+		return
+	}
+	run.mu.Lock()
+	minFin := ^uint64(0)
+	for _, n := range correct {
+		if n.lastFinH < minFin {
+			minFin = n.lastFinH
+		}
+	}
+	run.mu.Unlock()
+	h := minFin + 1
+	end := func(why string) {
+		run.logf("late-header attack on height %d ends (%s)", run.atkH, why)
+		run.atkH, run.atkStage, run.atkNudge = 0, 0, false
+		run.atkSince = step
+	}
+	if run.atkH != 0 && h > run.atkH {
+		end("every live correct node finalized it")
+	}
+	if run.atkH == 0 {
+		if step-run.atkSince < 40 && run.atkSince > 0 {
+			return // let the held messages flow for a while
+		}
+		run.atkH = h
+		// a victim without whose votes the others and the Byzantine validators still decide
+		var cand []int
+		for _, n := range correct {
+			if 3*(run.w.total-run.w.powers[n.idx]) > 2*run.w.total {
+				cand = append(cand, n.idx)
+			}
+		}
+		if len(cand) == 0 {
+			run.atkVictim = correct[run.rng.IntN(len(correct))].idx
+		} else {
+			run.atkVictim = cand[run.rng.IntN(len(cand))]
+		}
+		run.atkSince, run.atkStage, run.atkStageSince = step, 0, step
+		run.atkSent = map[string]bool{}
+		run.logf("late-header attack: height %d, victim n%d", h, run.atkVictim)
+	}
+	h = run.atkH
+	var others []int
+	othersDone := true
+	run.mu.Lock()
+	for _, n := range correct {
+		if n.idx != run.atkVictim {
+			others = append(others, n.idx)
+			if n.lastFinH < h {
+				othersDone = false
+			}
+		}
+	}
+	run.mu.Unlock()
+	if len(others) == 0 {
+		return
+	}
+	mkVote := func(precommit bool, r uint32, target string) e3Msg {
+		sigs, pkh := run.w.byzVote(precommit, h, r, map[string][]int{target: byz})
+		if precommit {
+			return e3Msg{kind: e3KindPrecommit, pc: tmconsensus.PrecommitSparseProof{Height: h, Round: r, PubKeyHash: pkh, Proofs: sigs}}
+		}
+		return e3Msg{kind: e3KindPrevote, pv: tmconsensus.PrevoteSparseProof{Height: h, Round: r, PubKeyHash: pkh, Proofs: sigs}}
+	}
+	switch run.atkStage {
+	case 0:
+		r := run.netR[h]
+		p := run.w.proposerBase(h, r)
+		key := fmt.Sprintf("late:%d/%d", h, r)
+		if !run.w.byz[p] || run.atkSent[key] {
+			if step-run.atkStageSince > 1500 {
+				end("no Byzantine proposer came up")
+			}
+			return
+		}
+		base, ok := run.baseHeader(h)
+		if !ok {
+			return
+		}
+		run.atkSent[key] = true
+		phX := run.w.byzProposal(base, h, r, p, 6)
+		phY := run.w.byzProposal(base, h, r, p, 7)
+		run.observe(&e3Msg{kind: e3KindPH, ph: phX})
+		run.observe(&e3Msg{kind: e3KindPH, ph: phY})
+		y, x := string(phY.Header.Hash), string(phX.Header.Hash)
+		all := append([]int{run.atkVictim}, others...)
+		run.inject(e3Msg{kind: e3KindPH, ph: phY}, others)
+		run.inject(mkVote(false, r, y), others)
+		run.inject(mkVote(true, r, y), all)
+		// the one prevote the victim gets to see: a Byzantine prevote for X
+		run.injectPass(mkVote(false, r, x), []int{run.atkVictim})
+		run.atkX = phX
+		run.atkStage, run.atkStageSince, run.atkNudge = 1, step, false
+		run.fault("byzantine")
+		run.count("byzantine.attack.late-header.started", 1)
+		run.logf("late-header attack: %d/%d proposer v%d shows X=%x to n%d and Y=%x to %v", h, r, p, short(x), run.atkVictim, short(y), others)
+	case 1:
+		if (othersDone && step-run.atkStageSince > 60) || run.atkNudge || step-run.atkStageSince > 2000 {
+			run.injectPass(e3Msg{kind: e3KindPH, ph: run.atkX}, []int{run.atkVictim})
+			run.atkStage, run.atkStageSince, run.atkNudge = 2, step, false
+			run.count("byzantine.attack.late-header.x-shown", 1)
+			if othersDone {
+				run.count("byzantine.attack.late-header.x-shown-after-others-finalized", 1)
+			}
+		}
+	case 2:
+		if step-run.atkStageSince > 120 {
+			end("X was shown; held messages released")
+		}
+	}
+}
+
+// nextRoundStep drives attack kind 2: at every height, as soon as a header of that height is
+// known, the Byzantine validators show one victim a block of their own for the round after the
+// current one together with their prevotes and precommits for it, and the victim's copies of
+// everybody's precommits of that height are held back for a while. Less than one third of the
+// power behind a block must neither move the victim out of its round nor decide anything.
+func (run *e3Run) nextRoundStep(step int) {
+	byz := run.w.byzList()
+	correct := run.liveCorrect()
+	if len(byz) == 0 || len(correct) < 2 {
+		return
+	}
+	if run.atkH != 0 && run.atkStage == 1 && step-run.atkStageSince > 150 {
+		run.logf("next-round attack on height %d: held messages released", run.atkH)
+		run.atkStage = 2
+	}
+	if run.atkH != 0 && run.atkStage == 1 {
+		// meanwhile the Byzantine validators help whatever the correct validators proposed
+		// in the height's earlier rounds to a decision among the others
+		var others []int
+		for _, n := range correct {
+			if n.idx != run.atkVictim {
+				others = append(others, n.idx)
+			}
+		}
+		for _, ph := range run.headers[run.atkH] {
+			x := string(ph.Header.Hash)
+			k := fmt.Sprintf("nr-support:%d/%d/%x", run.atkH, ph.Round, x)
+			if ph.Round >= run.atkRound || x == run.atkXHash || run.atkSent[k] || len(others) == 0 {
+				continue
+			}
+			run.atkSent[k] = true
+			pv, pkh := run.w.byzVote(false, run.atkH, ph.Round, map[string][]int{x: byz})
+			pc, _ := run.w.byzVote(true, run.atkH, ph.Round, map[string][]int{x: byz})
+			run.inject(e3Msg{kind: e3KindPrevote, pv: tmconsensus.PrevoteSparseProof{Height: run.atkH, Round: ph.Round, PubKeyHash: pkh, Proofs: pv}}, others)
+			run.inject(e3Msg{kind: e3KindPrecommit, pc: tmconsensus.PrecommitSparseProof{Height: run.atkH, Round: ph.Round, PubKeyHash: pkh, Proofs: pc}}, others)
+			run.count("byzantine.attack.next-round.support-earlier-round-block", 1)
+		}
+	}
+	// One attack per height and per victim candidate: as soon as some correct node's
+	// strategy has entered a height for which a header to build on is known, that node is
+	// shown the block for the round after the one it is in.
+	if run.atkHeights == nil {
+		run.atkHeights = map[uint64]bool{}
+	}
+	var h uint64
+	var r uint32
+	victim := -1
+	for _, n := range correct {
+		n.strat.mu.Lock()
+		ch, cr, entered := n.strat.curH, n.strat.curR, n.strat.entered
+		n.strat.mu.Unlock()
+		if entered && !run.atkHeights[ch] && ch >= h && (ch >= 3 || run.atkFromStart) {
+			if _, ok := run.baseHeader(ch); ok {
+				h, r, victim = ch, cr+1, n.idx
+			}
+		}
+	}
+	if victim < 0 {
+		return
+	}
+	base, _ := run.baseHeader(h)
+	run.atkHeights[h] = true
+	run.atkH = h
+	run.atkVictim = victim
+	run.atkRound = r
+	run.atkSent = map[string]bool{}
+	ph := run.w.byzProposal(base, h, r, byz[0], 9)
+	run.observe(&e3Msg{kind: e3KindPH, ph: ph})
+	x := string(ph.Header.Hash)
+	run.atkXHash = x
+	sigsV, pkh := run.w.byzVote(false, h, r, map[string][]int{x: byz})
+	sigsC, _ := run.w.byzVote(true, h, r, map[string][]int{x: byz})
+	v := []int{run.atkVictim}
+	run.injectPass(e3Msg{kind: e3KindPH, ph: ph}, v)
+	run.injectPass(e3Msg{kind: e3KindPrevote, pv: tmconsensus.PrevoteSparseProof{Height: h, Round: r, PubKeyHash: pkh, Proofs: sigsV}}, v)
+	run.injectPass(e3Msg{kind: e3KindPrecommit, pc: tmconsensus.PrecommitSparseProof{Height: h, Round: r, PubKeyHash: pkh, Proofs: sigsC}}, v)
+	run.atkSince, run.atkStage, run.atkStageSince = step, 1, step
+	run.count("byzantine.attack.next-round-own-block", 1)
+	run.logf("next-round attack: height %d, victim n%d is shown block %x for round %d with the Byzantine votes", h, run.atkVictim, short(x), r)
+}
+
 // attackStep drives the directed split attack (see e3Config.Attack).
 func (run *e3Run) attackStep(step int) {
+	if run.cfg.AttackKind == 1 {
+		run.lateHeaderStep(step)
+		return
+	}
+	if run.cfg.AttackKind == 2 {
+		run.nextRoundStep(step)
+		return
+	}
 	byz := run.w.byzList()
 	correct := run.liveCorrect()
 	if len(byz) == 0 || len(correct) < 2 {
